@@ -65,3 +65,64 @@ Example C02_concrete :
   let ms := messages key 3 2 [10;11;12;13;14;15;16] in
   stored (run_writer 2%Z (rev ms)) 1 = [15;13;11] /\ length ms = 6.
 Proof. vm_compute. split; reflexivity. Qed.
+
+(* patch modes.  A row = (record, value of the patch index column if patch_name was given);
+   near = Some f when centres are used (given, from a catalog, or generated), mode_key is the
+   documented precedence patch_centers > patch_name.  is_execution: workers = 0 is the
+   sequential path, otherwise ANY delivery order of the per-split dictionaries of a pool. *)
+Theorem C02_execution_stores_selected :
+  forall (A : Type) (near : option (A -> nat)) cs workers (bs : Z) (input : list (A * option nat)) pi p,
+  1 <= cs -> is_execution near cs workers input pi ->
+  Permutation (stored (run_writer bs pi) p) (map fst (filter (fun r => mode_key near r =? p) input)).
+Proof. exact @execution_stores_selected. Qed.
+Print Assumptions C02_execution_stores_selected.
+
+(* the per-patch multisets do not depend on chunk size, buffer size, number of workers or schedule *)
+Theorem C02_executions_agree :
+  forall (A : Type) (near : option (A -> nat)) cs cs' workers workers' (bs bs' : Z)
+         (input : list (A * option nat)) pi pi' p,
+  1 <= cs -> 1 <= cs' ->
+  is_execution near cs workers input pi -> is_execution near cs' workers' input pi' ->
+  Permutation (stored (run_writer bs pi) p) (stored (run_writer bs' pi') p).
+Proof. exact @executions_agree. Qed.
+Print Assumptions C02_executions_agree.
+
+(* patch_centers AND patch_name given: the nearest centre decides ... *)
+Theorem C02_centres_take_precedence :
+  forall (A : Type) (f : A -> nat) cs workers (bs : Z) (input : list (A * option nat)) pi p,
+  1 <= cs -> is_execution (Some f) cs workers input pi ->
+  Permutation (stored (run_writer bs pi) p) (filter (fun x => f x =? p) (map fst input)).
+Proof. exact @centres_take_precedence. Qed.
+Print Assumptions C02_centres_take_precedence.
+
+(* ... whatever the index column holds, for every pair of executions *)
+Theorem C02_index_column_ignored_with_centres :
+  forall (A : Type) (f : A -> nat) cs cs' workers workers' (bs bs' : Z)
+         (input input' : list (A * option nat)) pi pi' p,
+  1 <= cs -> 1 <= cs' -> map fst input = map fst input' ->
+  is_execution (Some f) cs workers input pi -> is_execution (Some f) cs' workers' input' pi' ->
+  Permutation (stored (run_writer bs pi) p) (stored (run_writer bs' pi') p).
+Proof. exact @index_column_ignored_with_centres. Qed.
+Print Assumptions C02_index_column_ignored_with_centres.
+
+(* patch_name only: the index column names the patch *)
+Theorem C02_index_column_names_patch :
+  forall (A : Type) (col : A -> nat) cs workers (bs : Z) (xs : list A) pi p,
+  1 <= cs -> is_execution None cs workers (map (fun x => (x, Some (col x))) xs) pi ->
+  Permutation (stored (run_writer bs pi) p) (filter (fun x => col x =? p) xs).
+Proof. exact @index_column_names_patch. Qed.
+Print Assumptions C02_index_column_names_patch.
+
+(* non-vacuity: 7 records with an index column that contradicts the nearest centre (x mod 2);
+   chunk size 3, 2 workers, reversed delivery: patch 1 holds the records with nearest centre 1,
+   the checker accepts this run next to the sequential one and rejects a run split by the column *)
+Example C02_concrete_precedence :
+  let rows := map (fun x : nat => (x, Some ((x + 1) mod 2))) [10;11;12;13;14;15;16] in
+  let near := Some (fun x : nat => x mod 2) in
+  stored (run_writer 2%Z (rev (messages_mode near 3 2 rows))) 1 = [15;13;11]
+  /\ stored (run_writer 2%Z (messages_mode_seq near 3 rows)) 1 = [11;13;15]
+  /\ c02_matrix_case 5 2 true true [0;1;0;1;0] [1;0;1;0;1] (-1)%Z
+       [ ((0, []), [(0, [0;2;4]); (1, [1;3])]); ((2, [1;0;3;2;5;4]), [(0, [0;2;4]); (1, [1;3])]) ] = 0
+  /\ c02_matrix_case 5 2 true true [0;1;0;1;0] [1;0;1;0;1] (-1)%Z
+       [ ((0, []), [(0, [0;2;4]); (1, [1;3])]); ((2, [1;0;3;2;5;4]), [(0, [1;3]); (1, [0;2;4])]) ] = 7.
+Proof. vm_compute. repeat split; reflexivity. Qed.
